@@ -76,7 +76,7 @@ def from_gen(fn, tape=TAPE):
 # --------------------------------------------------------------------------- alphabets
 STRS = [
     "a", "", "b", "c", "abc", "1", "0", "-3", "2.5", "1e3", "3", "-12", " 7 ",
-    "true", "True", "TRUE", "false", "False", "FALSE", "none", "50%", "%d", "%(a)s",
+    "true", "True", "TRUE", "false", "False", "FALSE", "none", "50%", "%d", "%(a)s", "%c", "50%c off", "%*d", "%.2f",
     "x y", "A", "<b>", "&amp", "path", "\\path", "type", "1.5", "٣x", "tRuE",
     "+3", "1_0", "1.", ".5", "0x1", "١٢", "a.b", "a/b", "a\\b", ".", "/", "ß", "İ", "ǅ", "Straße", "TRUE\n",
     "x" * 40, "long string " * 20, "x\n  \ny", "first\n\n    indented\nlast",
@@ -348,7 +348,7 @@ def doc(r, depth=3, sc=scalar):
 
 # hostile scalars (C07, C13, C15): castable / uncastable strings, zeros, %-strings
 CAST_STRS = ["true", "3", "True", "TRUE", "false", "False", "FALSE", "-12", " 7 ", "0",
-             "none", "abc", "", "1.5", "٣x", "50%", "tRuE", "1e3", "٣", " true", "False\n", "TRUE ", "\tfalse", "falſe", "FALſE"]
+             "none", "abc", "", "1.5", "٣x", "50%", "tRuE", "1e3", "٣", " true", "False\n", "TRUE ", "\tfalse", "falſe", "FALſE", "%c", "%c%c", "%5c!"]
 HOSTILE = [0, 0.0, False, None, 1, -1, 2.5, True, 12]
 
 
@@ -395,7 +395,7 @@ VARPOS_KEYS = [
 ]
 N_OF = ["keys_contain_N_of", "keys_contain_at_least_N_of", "keys_contain_at_most_N_of"]
 ONE_OF_KW = ["keys_contain_at_least_one_of", "keys_contain_at_most_one_of"]
-NONZERO = [1, 2, 3, 4, 6, 12, -2, 2.5, -1, 5, 0.5]
+NONZERO = [1, 2, 3, 4, 6, 12, -2, 2.5, -1, 5, 0.5, -3, 2000000, 0x110000, 0x10FFFF]  # beyond chr(): "%c" % n overflows
 
 
 def number(r):
